@@ -34,6 +34,7 @@ FEATS = dict(div=False, ts=False, strftime=False, nulls_order=True, setops_all=T
              outer_derived=False,           # merge_subqueries inlines constants from the null-supplying side
              subq_under_or=False,           # unnest_subqueries turns a subquery predicate under NOT / OR into a join filter
              cross_join_derived=False,      # eliminate_joins drops a cross-joined derived table that may be empty
+             same_col_const_pair=False,     # simplify folds `c = 1 AND c < 0` to FALSE although it is NULL for NULL (C06 finding)
              lit_left_cmp=False,            # simplify flips `7 <> x` in SELECT but not in GROUP BY
              star_dup_order=False,          # qualify turns ORDER BY ordinals into ambiguous names
              stars="single-source")         # qualify expands * with CTE columns first
